@@ -17,6 +17,7 @@ pub struct KB {
     kb: KnowledgeBase,
     names: Vec<String>,
     orig: Vec<(String, i64)>, // (name, spec salience) of every successful add
+    shadow: Option<(KnowledgeBase, Value)>, // the instance a `fork` was cloned from, and what it looked like then
     extreme: bool, // order-preserving relabelling of the saliences: negative -> i32::MIN, above 1 -> i32::MAX
 }
 
@@ -41,15 +42,25 @@ impl KB {
             Some(a) => a.iter().map(|x| x.as_str().unwrap().to_string()).collect(),
             None => vec!["a".into(), "b".into(), "c".into()],
         };
-        KB { kb: KnowledgeBase::new("kb"), names, extreme: cfg["extreme"].as_bool().unwrap_or(false), orig: vec![] }
+        KB { kb: KnowledgeBase::new("kb"), names, extreme: cfg["extreme"].as_bool().unwrap_or(false), orig: vec![], shadow: None }
     }
     fn obs(&self, ok: bool, dv: u64) -> Value {
-        let rules = self.kb.get_rules();
-        let so = |n: &str, s: i32| sal_out(self.extreme, &self.orig, n, s);
+        let mut o = self.obs_of(&self.kb, ok, dv, true);
+        if let Some((old, then)) = &self.shadow {
+            let now = self.obs_of(old, true, 0, false);
+            if now != *then {
+                o["original_changed_after_clone"] = json!({"then": then, "now": now});
+            }
+        }
+        o
+    }
+    fn obs_of(&self, kb: &KnowledgeBase, ok: bool, dv: u64, relabel: bool) -> Value {
+        let rules = kb.get_rules();
+        let so = |n: &str, s: i32| sal_out(self.extreme && relabel, &self.orig, n, s);
         let list: Vec<Value> = rules.iter().map(|r| json!({"n": r.name, "s": so(&r.name, r.salience), "e": r.enabled})).collect();
         let mut get = Map::new();
         for n in &self.names {
-            let g = match self.kb.get_rule(n) {
+            let g = match kb.get_rule(n) {
                 Some(r) if r.name == *n => json!({"present": true, "s": so(&r.name, r.salience), "e": r.enabled}),
                 Some(r) => json!({"present": true, "wrong_rule_returned": r.name}),
                 None => json!({"present": false, "s": 0, "e": false}),
@@ -57,21 +68,20 @@ impl KB {
             get.insert(n.clone(), g);
         }
         // derived views must agree with the list
-        let mut names = self.kb.get_rule_names();
+        let mut names = kb.get_rule_names();
         names.sort();
         let mut lnames: Vec<String> = rules.iter().map(|r| r.name.clone()).collect();
-        let by_sal: Vec<String> = self
-            .kb
+        let by_sal: Vec<String> = kb
             .get_rules_by_salience()
             .into_iter()
-            .map(|i| self.kb.get_rule_by_index(i).map(|r| r.name).unwrap_or("?".into()))
+            .map(|i| kb.get_rule_by_index(i).map(|r| r.name).unwrap_or("?".into()))
             .collect();
-        let st = self.kb.get_statistics();
-        let snap: Vec<String> = self.kb.get_rules_snapshot().iter().map(|r| r.name.clone()).collect();
-        let mut o = json!({"ok": ok, "dv": dv, "list": list, "get": get, "count": self.kb.rule_count(),
+        let st = kb.get_statistics();
+        let snap: Vec<String> = kb.get_rules_snapshot().iter().map(|r| r.name.clone()).collect();
+        let mut o = json!({"ok": ok, "dv": dv, "list": list, "get": get, "count": kb.rule_count(),
                            "enabled": st.enabled_rules});
         let consistent = by_sal == lnames && snap == lnames && st.total_rules == rules.len()
-            && st.disabled_rules + st.enabled_rules == rules.len() && st.version == self.kb.version() && {
+            && st.disabled_rules + st.enabled_rules == rules.len() && st.version == kb.version() && {
                 lnames.sort();
                 names == lnames
             };
@@ -102,6 +112,28 @@ impl Model for KB {
             "clear" => {
                 self.kb.clear();
                 true
+            }
+            "fork" => {
+                let c = self.kb.clone();
+                let ok = c.version() == c.rule_count() as u64;
+                let old = std::mem::replace(&mut self.kb, c);
+                let then = self.obs_of(&old, true, 0, false);
+                self.shadow = Some((old, then));
+                return self.obs(ok, 0);
+            }
+            "addgrl" => {
+                let before: Vec<String> = self.kb.get_rule_names();
+                let mut text = String::new();
+                let mut seen: Vec<String> = vec![];
+                for r in l["b"].as_array().unwrap() {
+                    let (n, s) = (r["n"].as_str().unwrap(), r["s"].as_i64().unwrap());
+                    text.push_str(&format!("rule \"{}\" salience {} {{\n  when A.x == 1\n  then A.y = {};\n}}\n", n, sal_in(self.extreme, s), s));
+                    if !before.iter().any(|x| x == n) && !seen.iter().any(|x| x == n) {
+                        self.orig.push((n.to_string(), s));
+                    }
+                    seen.push(n.to_string());
+                }
+                self.kb.add_rules_from_grl(&text).is_ok()
             }
             o => panic!("unknown op {}", o),
         };
